@@ -15,7 +15,7 @@ package main
 // than <max-udp-size> is cut to that length first: the collector's read buffer has that size and the kernel hands
 // over no more. Prints one line per datagram:
 //
-//	<class>\t<z>\t<changed>\t<payload>
+//	<class>\t<z>\t<changed>\t<fields>\t<payload>
 //
 //	class    x  does not count as decoded (ipfix / v9: no message; v5: Decode reports an error; sflow: error, or
 //	            neither sample nor counter, or marshal fails — sFlow's DecodedCount follows the successful marshal)
@@ -26,6 +26,8 @@ package main
 //	z        the largest number of zero-length field specifiers of a template in this protocol's cache after the
 //	         datagram (finding K4: such a template makes decoding cost records x z)
 //	changed  1 when the datagram changed the template cache (ignoring timestamps), else 0
+//	fields   the number of decoded fields of the message (ipfix / v9: over all records of all data sets). C02 proves
+//	         fields <= octets + records x z; what exceeds the octets of the datagram is the K4 term
 //	payload  the JSON the collector would publish ("-" when none); sFlow: ColTime (the wall clock) set to 0
 //
 // The classes are the ones the pipeline kind's generator computes (pipeline.go: pipeClassIPFIX …); the sFlow class
@@ -55,65 +57,74 @@ func init() { tools["e2eref"] = e2eref }
 type refOut struct {
 	class   byte
 	payload string
+	fields  int
 }
 
 func refIPFIX(src net.IP, body []byte, cache ipfix.MemCache) refOut {
 	msg, _ := ipfix.NewDecoder(src, body).Decode(cache)
 	if msg == nil {
-		return refOut{'x', "-"}
+		return refOut{'x', "-", 0}
 	}
 	if len(msg.DataSets) == 0 {
-		return refOut{'t', "-"}
+		return refOut{'t', "-", 0}
+	}
+	nf := 0
+	for _, rec := range msg.DataSets {
+		nf += len(rec)
 	}
 	b, err := msg.JSONMarshal(new(bytes.Buffer))
 	if err != nil {
-		return refOut{'m', "-"}
+		return refOut{'m', "-", nf}
 	}
-	return refOut{'d', string(b)}
+	return refOut{'d', string(b), nf}
 }
 
 func refV9(src net.IP, body []byte, cache netflow9.MemCache) refOut {
 	msg, _ := netflow9.NewDecoder(src, body).Decode(cache)
 	if msg == nil {
-		return refOut{'x', "-"}
+		return refOut{'x', "-", 0}
 	}
 	if msg.DataSets == nil {
-		return refOut{'t', "-"}
+		return refOut{'t', "-", 0}
+	}
+	nf := 0
+	for _, rec := range msg.DataSets {
+		nf += len(rec)
 	}
 	b, err := msg.JSONMarshal(new(bytes.Buffer))
 	if err != nil {
-		return refOut{'m', "-"}
+		return refOut{'m', "-", nf}
 	}
-	return refOut{'d', string(b)}
+	return refOut{'d', string(b), nf}
 }
 
 func refV5(src net.IP, body []byte) refOut {
 	// "decodes successfully" is "Decode reports no error" (F29), not the worker's `msg == nil`
 	msg, err := netflow5.NewDecoder(src, body).Decode()
 	if msg == nil || err != nil {
-		return refOut{'x', "-"}
+		return refOut{'x', "-", 0}
 	}
 	if msg.Flows == nil {
-		return refOut{'t', "-"}
+		return refOut{'t', "-", 0}
 	}
 	b, err := msg.JSONMarshal(new(bytes.Buffer))
 	if err != nil {
-		return refOut{'m', "-"}
+		return refOut{'m', "-", 0}
 	}
-	return refOut{'d', string(b)}
+	return refOut{'d', string(b), 0}
 }
 
 func refSFlow(body []byte) refOut {
 	d := sflow.NewSFDecoder(bytes.NewReader(body), []uint32{})
 	dg, err := d.SFDecode()
 	if err != nil || (len(dg.Counters) < 1 && len(dg.Samples) < 1) {
-		return refOut{'x', "-"}
+		return refOut{'x', "-", 0}
 	}
 	b, err := json.Marshal(dg)
 	if err != nil {
-		return refOut{'x', "-"}
+		return refOut{'x', "-", 0}
 	}
-	return refOut{'d', colRe.ReplaceAllString(string(b), `"ColTime":0`)}
+	return refOut{'d', colRe.ReplaceAllString(string(b), `"ColTime":0`), 0}
 }
 
 func e2eref(args []string) int {
@@ -149,7 +160,7 @@ func e2eref(args []string) int {
 		go func() {
 			defer func() {
 				if p := recover(); p != nil {
-					ch <- refOut{'p', strings.Replace(fmt.Sprint(p), "\n", " ", -1)}
+					ch <- refOut{'p', strings.Replace(fmt.Sprint(p), "\n", " ", -1), 0}
 				}
 			}()
 			switch f[0] {
@@ -162,7 +173,7 @@ func e2eref(args []string) int {
 			case "sflow":
 				ch <- refSFlow(body)
 			default:
-				ch <- refOut{'?', "-"}
+				ch <- refOut{'?', "-", 0}
 			}
 		}()
 		var o refOut
@@ -170,7 +181,7 @@ func e2eref(args []string) int {
 		case o = <-ch:
 		case <-time.After(20 * time.Second):
 			// the reference itself hangs on this datagram: nothing after it can be predicted
-			fmt.Fprintf(w, "h\t0\t0\t-\n")
+			fmt.Fprintf(w, "h\t0\t0\t0\t-\n")
 			w.Flush()
 			return 3
 		}
@@ -191,7 +202,7 @@ func e2eref(args []string) int {
 				fp9, chg = fp, 1
 			}
 		}
-		fmt.Fprintf(w, "%c\t%d\t%d\t%s\n", o.class, z, chg, o.payload)
+		fmt.Fprintf(w, "%c\t%d\t%d\t%d\t%s\n", o.class, z, chg, o.fields, o.payload)
 	}
 	return 0
 }
